@@ -204,7 +204,11 @@ func TestVerifC05Schedules(t *testing.T) {
 					if rr > 0 && (pol == types.Maglev || pol == types.RequestRoundRobin || pol == types.LeastActiveRequest || pol == types.LeastActiveConnection) {
 						continue // no round-robin cursor inside
 					}
-					cases = append(cases, c05SchedCase{Policy: string(pol), Cfg: cfg, Healthy: healthy, RRDraw: rr, Bound: bound})
+					b := bound
+					if vreport.Thorough() && (pol == types.RoundRobin || pol == types.RequestRoundRobin || pol == types.Maglev || pol == types.Random) {
+						b = bound + 1 // few scheduling points per execution: one more preemption is affordable
+					}
+					cases = append(cases, c05SchedCase{Policy: string(pol), Cfg: cfg, Healthy: healthy, RRDraw: rr, Bound: b})
 				}
 			}
 		}
@@ -241,7 +245,7 @@ func TestVerifC05Schedules(t *testing.T) {
 		}
 	}
 	p.End(complete,
-		fmt.Sprintf("real simpleCluster publishing S1={A,B,C}; 3 threads: UpdateHosts(S2={C,D}) || 2 x (Snapshot, HostSet, LoadBalancer, ChooseHost); 8 policies (EDF based ones with both weight configurations) x all 16 health patterns over A..D x every initial round-robin cursor residue; all interleavings with <= %d preemptions (scheduling point at every lock and atomic operation of pkg/upstream/cluster)", bound),
+		fmt.Sprintf("real simpleCluster publishing S1={A,B,C}; 3 threads: UpdateHosts(S2={C,D}) || 2 x (Snapshot, HostSet, LoadBalancer, ChooseHost); 8 policies (EDF based ones with both weight configurations) x all 16 health patterns over A..D x every initial round-robin cursor residue; all interleavings with <= %d preemptions (thorough: <= %d for random, RR, request-RR, maglev) (scheduling point at every lock and atomic operation of pkg/upstream/cluster)", bound, vreport.Pick(bound, bound+1)),
 		"stateless DFS over thread interleavings (preemption bounded); one evaluation = one complete execution; distinct = (case, what both choosers observed); draws fixed per case (enumerated in the other parts)")
 }
 
